@@ -33,10 +33,14 @@ Cf(c)     == [oomgate |-> c.oomgate, bodyc |-> c.bodyc, bodybig |-> c.bodybig, b
 State0(c) == [ref |-> [k \in KeyNames |-> NoRef], backlog |-> FALSE, junk |-> FALSE, fresh |-> TRUE, cf |-> Cf(c)]
 World0(c) == [s |-> State0(c), lk |-> ZeroLk, dead |-> FALSE]
 
-RECURSIVE PlanSigs(_, _, _, _)
-PlanSigs(s, plan, i, acc) ==
+RECURSIVE PlanSigsW(_, _, _, _, _, _)
+PlanSigsW(s, plan, i, acc, F, stop) ==
   IF i > Len(plan) THEN acc
-  ELSE LET r == PresentFrom([s EXCEPT !.junk = FALSE, !.fresh = TRUE], plan[i], 1, {}) IN PlanSigs(r.s, plan, i + 1, acc \cup r.sigs)
+  ELSE LET r == PresentFrom([s EXCEPT !.junk = FALSE, !.fresh = TRUE], plan[i], 1, {}, F, stop)
+       IN PlanSigsW(r.s, plan, i + 1, acc \cup r.sigs, F, stop)
+PlanSigs(s, plan, i, acc) ==
+  PlanSigsW(s, plan, i, acc, AllFindings, TRUE) \cup PlanSigsW(s, plan, i, acc, AllFindings, FALSE)
+    \cup PlanSigsW(s, plan, i, acc, {}, FALSE)
 
 ModesOf(P) == IF Cardinality(P) <= 3 THEN SUBSET P ELSE {{}} \cup {{f} : f \in P} \cup {P}
 
